@@ -58,7 +58,13 @@ impl Typstyle {
             utils::count_spaces_after_last_newline(source.text(), node.range().start);
         // The body of a list, enum or term item is nested one unit deeper than the item's line:
         // its continuation lines must stay to the right of the marker.
+        // A body that starts on a line of its own is already at its nested column.
+        let line_start = source.text()[..node.range().start]
+            .rfind('\n')
+            .map_or(0, |pos| pos + 1);
+        let shares_line = line_start + indent < node.range().start;
         if node.kind() == SyntaxKind::Markup
+            && shares_line
             && matches!(
                 node.parent_kind(),
                 Some(SyntaxKind::ListItem | SyntaxKind::EnumItem | SyntaxKind::TermItem)
